@@ -25,11 +25,13 @@ import (
 	"github.com/hydraide/hydraide/app/verifhook"
 
 	"verifharness/rig"
+	"verifharness/sched"
 )
 
 type stressWorld struct {
 	mu    sync.Mutex
 	insts map[string][]swamp.Swamp // swamp name -> instances seen at gates
+	bg    map[string][]int64       // swamp name -> listener / ticker goroutines seen at gates
 	seed  int64
 	ctr   uint64
 }
@@ -50,6 +52,18 @@ func (sw *stressWorld) onYield(point string, args ...any) {
 		}
 		if !found {
 			sw.insts[nm] = append(sw.insts[nm], s)
+		}
+		if strings.HasPrefix(point, "swamp.writelistener.") || strings.HasPrefix(point, "swamp.closelistener.") {
+			gid := sched.GoID()
+			known := false
+			for _, g := range sw.bg[nm] {
+				if g == gid {
+					known = true
+				}
+			}
+			if !known {
+				sw.bg[nm] = append(sw.bg[nm], gid)
+			}
 		}
 		sw.ctr++
 		c := sw.ctr
@@ -209,6 +223,12 @@ func waitGone(e *env, sw *stressWorld, swampName string) string {
 	if !waitClosed(e.hy, swampName, stepTimeout) {
 		return "swamp re-opened by nobody?"
 	}
+	sw.mu.Lock()
+	bg := append([]int64{}, sw.bg[swampName]...)
+	sw.mu.Unlock()
+	if !goroutinesGone(bg, stepTimeout) {
+		return "listener / ticker goroutines of closed instances did not finish"
+	}
 	return ""
 }
 
@@ -222,7 +242,7 @@ func stress(out string, rounds, swamps int, seed int64) error {
 	}
 	defer os.RemoveAll(root)
 	e := newEnv(root)
-	sw := &stressWorld{insts: map[string][]swamp.Swamp{}, seed: seed}
+	sw := &stressWorld{insts: map[string][]swamp.Swamp{}, bg: map[string][]int64{}, seed: seed}
 	verifhook.SetYield(sw.onYield)
 	f, err := os.Create(out)
 	if err != nil {
@@ -286,6 +306,10 @@ func stress(out string, rounds, swamps int, seed int64) error {
 		for s := 0; s < swamps && len(infras) == 0; s++ {
 			if pending[s] == nil {
 				continue
+			}
+			if why := waitGone(e, sw, plans[s].Swamp); why != "" { // a tick overtaken by stop's Close finishes its write first
+				infras = append(infras, why)
+				break
 			}
 			obs, err := reloadChild(root, plans[s].Swamp, traceKeys)
 			if err != nil {
